@@ -1007,17 +1007,17 @@ impl<'a> Visitor<'a, Result<Expr>> for TryIntoExprVisitor<'a> {
             "ltrim" => self.trim(
                 Ok(flat_args[0].clone()),
                 &Some(ast::TrimWhereField::Leading),
-                (flat_args.len() > 1).then_some(Ok(flat_args[1].clone())),
+                (flat_args.len() > 1).then(|| Ok(flat_args[1].clone())),
             )?,
             "rtrim" => self.trim(
                 Ok(flat_args[0].clone()),
                 &Some(ast::TrimWhereField::Trailing),
-                (flat_args.len() > 1).then_some(Ok(flat_args[1].clone())),
+                (flat_args.len() > 1).then(|| Ok(flat_args[1].clone())),
             )?,
             "btrim" => self.trim(
                 Ok(flat_args[0].clone()),
                 &Some(ast::TrimWhereField::Both),
-                (flat_args.len() > 1).then_some(Ok(flat_args[1].clone())),
+                (flat_args.len() > 1).then(|| Ok(flat_args[1].clone())),
             )?,
             "round" => {
                 let precision = if flat_args.len() > 1 {
